@@ -84,6 +84,8 @@ type vkStack struct {
 	reload  chan event.GenericEvent
 	changed map[string]bool
 	calls   []vsEv // the handler calls made by the reconcilers, in harness terms (for the model)
+	// the work queue: a request whose Reconcile returned an error is served again after later events; one that returned nil is not
+	pendingCfg *reconcile.Request
 	truth   *vkTruth
 }
 
@@ -370,7 +372,10 @@ func (st *vkStack) apply(e vkEv) {
 		}
 		// the Node watch of the node reconciler and the Node watch of the config reconciler
 		st.nodeRec.Reconcile(ctx, vkReq("", o.Name))
-		st.cfgRec.Reconcile(ctx, vkReq("", o.Name))
+		nreq := vkReq("", o.Name)
+		if _, err := st.cfgRec.Reconcile(ctx, nreq); err != nil {
+			st.pendingCfg = &nreq
+		}
 	case "cfg":
 		vkDeleteAll(st.fc, &metallbv1beta1.IPAddressPool{}, vkNS)
 		vkDeleteAll(st.fc, &metallbv1beta1.BGPAdvertisement{}, vkNS)
@@ -383,11 +388,23 @@ func (st *vkStack) apply(e vkEv) {
 			}
 			name = o.GetName()
 		}
-		st.cfgRec.Reconcile(ctx, vkReq(vkNS, name))
+		req := vkReq(vkNS, name)
+		st.pendingCfg = nil
+		if _, err := st.cfgRec.Reconcile(ctx, req); err != nil {
+			st.pendingCfg = &req
+		}
 	case "resync":
 		st.reload <- controllers.NewReloadEvent()
 	}
 	st.drain()
+	// requeued configuration request (the handler answered SyncStateError): served again after this event
+	if st.pendingCfg != nil && e.Op != "cfg" {
+		req := *st.pendingCfg
+		if _, err := st.cfgRec.Reconcile(ctx, req); err == nil {
+			st.pendingCfg = nil
+		}
+		st.drain()
+	}
 }
 
 func (st *vkStack) replaceSlices(ns, name string, slices []client.Object) {
@@ -488,7 +505,9 @@ func vkGenAdvs(r *rand.Rand) []vkAdv {
 	return l
 }
 
-func vkGenCfg(r *rand.Rand) *vkCfg {
+func vkGenCfg(r *rand.Rand) *vkCfg { return vkGenCfgN(r, 2) }
+
+func vkGenCfgN(r *rand.Rand, npools int) *vkCfg {
 	c := &vkCfg{}
 	for i := 0; i < 3; i++ {
 		if i == 0 || r.Intn(3) != 0 {
@@ -499,7 +518,7 @@ func vkGenCfg(r *rand.Rand) *vkCfg {
 			c.Peers = append(c.Peers, p)
 		}
 	}
-	for p := 0; p < 2; p++ {
+	for p := 0; p < npools; p++ {
 		pl := vkPool{CIDRs: []string{"10.20.30.0/24", "fc00:30::/64"}}
 		if p == 1 {
 			pl.CIDRs = []string{"10.20.31.0/24", "fc00:31::/64"}
@@ -521,7 +540,7 @@ func vkGenCfg(r *rand.Rand) *vkCfg {
 	return c
 }
 
-var vkSvcIPs = []string{"10.20.30.1", "10.20.30.2", "10.20.31.1", "10.20.31.2"}
+var vkSvcIPs = []string{"10.20.30.1", "10.20.30.2", "10.20.31.1", "10.20.31.2"} // ns0/api and ns1/s3 live in the second pool
 
 // endpoints with distinct addresses (no address on two nodes: F18 cannot occur); healthy or not
 func vkGenSvc(r *rand.Rand, idx int, healthy bool) *vsSvc {
@@ -605,8 +624,23 @@ func vkGenHistory(r *rand.Rand) (bool, []vkEv) {
 			}
 			node[i] = &c
 			h = append(h, vkEv{Op: "node", Node: &c})
-		case x < 96:
+		case x < 92:
 			h = append(h, vkEv{Op: "cfg", Cfg: vkGenCfg(r)})
+		case x < 97:
+			// the second pool is deleted while its Services (ns0/api, ns1/s3) may be announced; the controller then clears
+			// their addresses; sometimes the pool comes back
+			h = append(h, vkEv{Op: "cfg", Cfg: vkGenCfgN(r, 1)})
+			for _, k := range []int{2, 3} {
+				if last[k] != nil {
+					c := *last[k]
+					c.IPs = []string{}
+					last[k] = &c
+					h = append(h, vkEv{Op: "svc", Name: k, Svc: &c})
+				}
+			}
+			if r.Intn(2) == 0 {
+				h = append(h, vkEv{Op: "cfg", Cfg: vkGenCfg(r)})
+			}
 		default:
 			h = append(h, vkEv{Op: "resync"})
 		}
@@ -699,6 +733,12 @@ func vkRunHistory(out *vOut, id int, kind string, ignore bool, h []vkEv) {
 			out.Stat("stack_handler_calls", 1)
 		}
 		if truth.cfg == nil {
+			continue
+		}
+		if st.pendingCfg != nil {
+			// the speaker refused the configuration (it orphans an announced address) and will be served again: until the
+			// controller releases the address the speaker is, by design, on the previous configuration
+			out.Stat("stack_steps_with_pending_configuration", 1)
 			continue
 		}
 		// (3) eligibility from the CURRENT objects
@@ -820,6 +860,19 @@ func TestVerifSpkStack(t *testing.T) {
 		{Op: "svc", Name: 2, Svc: svc("10.20.30.1", good)},
 		{Op: "cfg", Cfg: narrowed},
 		{Op: "cfg", Cfg: cfgAll},
+	})
+	// ONE configuration change deletes the pool of an announced Service (and re-deals the other pool's layer-2 nodes): refused
+	// and requeued; the controller clears the address (Service status update); the requeued request is served and accepted
+	twoPools := &vkCfg{Peers: peers, Pools: []vkPool{{CIDRs: []string{"10.20.30.0/24"}, BGP: adv(nil), L2: l2}, {CIDRs: []string{"10.20.31.0/24"}, L2: l2}}}
+	onePool := &vkCfg{Peers: peers, Pools: []vkPool{{CIDRs: []string{"10.20.30.0/24"}, BGP: adv(nil), L2: []vsL2Adv{{Nodes: []int{1}, Ifs: []int{}, All: true}}}}}
+	id++
+	vkRunHistory(out, id, "corpus-pool-deleted-while-announced", false, []vkEv{
+		{Op: "node", Node: nd(0, nil, false)}, {Op: "node", Node: nd(1, nil, false)}, {Op: "node", Node: nd(2, nil, false)},
+		{Op: "cfg", Cfg: twoPools}, {Op: "resync"},
+		{Op: "svc", Name: 0, Svc: svc("10.20.30.1", good)}, {Op: "svc", Name: 2, Svc: svc("10.20.31.1", good)},
+		{Op: "cfg", Cfg: onePool},
+		{Op: "svc", Name: 2, Svc: &vsSvc{LB: true, IPs: []string{}, Eps: good}},
+		{Op: "eps", Name: 0, Svc: svc("10.20.30.1", good)},
 	})
 	if rp := os.Getenv("VERIF_REPLAY"); rp != "" {
 		if b, err := os.ReadFile(rp); err == nil {
